@@ -238,7 +238,7 @@ theorem netbios_encode_eq (data : Bytes) (off : Int) :
   simp only []
   rw [encode_loop]
   simp [bytesOfInts_eq]
-  rfl
+
 
 
 theorem add_int (a b : Int) : add a b = a + b := rfl
